@@ -422,11 +422,17 @@ func cmdCheck(args []string) {
 		// last resort for what is still undecided: one obligation at a time (an idle machine), each z3
 		// with three different random seeds and cvc5 - quantifier instantiation is sensitive to both
 		// load and seed, and an answer that exists should not be lost to either
+		var left []*Obligation
 		for _, r := range retry {
 			for _, o := range r.Obls {
 				if !o.Passed() && !o.ExpectSat && (o.Status == "unknown" || o.Status == "timeout") && o.SMTPath != "" {
-					solveSeeds(o, timeout*3)
+					left = append(left, o)
 				}
+			}
+		}
+		if len(left) <= 3 { // (a change that really breaks a proof usually leaves many; this is for the odd one)
+			for _, o := range left {
+				solveSeeds(o, timeout)
 			}
 		}
 	}
